@@ -3,7 +3,7 @@
    Model: coq/C38/Model.v (hand transcription of pkg/pdfcpu/stamp.go).  Content streams are byte lists;
    the drawing of the watermark itself (form XObject, fonts, images) is not modelled. *)
 From Coq Require Import List NArith Bool.
-From PV Require Import C38.Model C38.ProofsIndex C38.ProofsRemove C38.ProofsPage C38.ProofsDoc C38.ProofsSeq.
+From PV Require Import C38.Model C38.ProofsIndex C38.ProofsRemove C38.ProofsPage C38.ProofsDoc C38.ProofsSeq C38.ProofsTree.
 Import ListNotations.
 Open Scope N_scope.
 
@@ -127,6 +127,25 @@ Theorem C38_stamp_left_behind_refuted :
                    /\ clean_page ct' = false /\ detect_page ct' = false).
 Proof. exact stamp_left_behind. Qed.
 Print Assumptions C38_stamp_left_behind_refuted.
+
+(* 10. DetectWatermarks walks the page tree (nested /Pages nodes, shared ctx.Watermarked flag, early exit).
+       Its result is the `existsb` of the per-page detection over the pages in document order, hence
+       independent of the shape of the tree; so every document-level theorem above, stated on the page
+       list, holds for every page tree with that page list. *)
+Theorem C38_detect_tree_shape_independent :
+  (forall t, walk_tree t false = existsb (fun p => detect_page (pg_ct p)) (flatten t))
+  /\ (forall t1 t2, flatten t1 = flatten t2 -> walk_tree t1 false = walk_tree t2 false)
+  /\ (forall d, detect_tdoc d = detect_doc (flat_doc d)).
+Proof. exact tree_detect_statement. Qed.
+Print Assumptions C38_detect_tree_shape_independent.
+
+(* a merge-like tree Kids=[Pages[p1* p2] p3]: watermark on p1 only, followed by clean pages at both levels *)
+Example C38_tree_nonvacuous :
+  let w := {| pg_res := true; pg_ct := CStream (wmbb [49] [49] [49]) |} in
+  let c := {| pg_res := true; pg_ct := CStream [110] |} in
+  detect_tdoc {| t_ocg := true; t_root := [PNode [PLeaf w; PLeaf c]; PLeaf c] |} = true
+  /\ detect_tdoc {| t_ocg := true; t_root := [PNode [PLeaf c; PLeaf c]; PLeaf c] |} = false.
+Proof. vm_compute. split; reflexivity. Qed.
 
 (* non-vacuity: the hypotheses are satisfiable, both placements, single and multi stream *)
 Example C38_nonvacuous :
